@@ -44,6 +44,7 @@ func TestC03Shutdown(t *testing.T) {
 		c := genCase("shutdown").Draw(rt, "case")
 		out := runInBubble(t, c)
 		ev.Case(out.ShutdownDuringActivity, evid.Hash(c.String()), fmt.Sprintf("cycles-%d", out.Cycles))
+		ev.Add("early-restarts-accepted", int64(out.EarlyRestarts))
 		if len(out.Viol["C03"]) > 0 {
 			rt.Fatalf("%s\ncase: %s\ntrace: %v", out.Viol["C03"][0], c, out.Trace)
 		}
